@@ -33,10 +33,15 @@ type c17Case struct {
 	motion string
 	count  string // "", "2op", "op2", "op3"
 	visual string // "", "v", "V"
+	paren  bool   // blink-matching-paren on (the display marks the partner of a bracket under the cursor)
 }
 
 func (cs c17Case) String() string {
-	return fmt.Sprintf("buffer=%q cursor=%d motion=%q count=%s visual=%q", cs.buf, cs.pos, cs.motion, cs.count, cs.visual)
+	s := fmt.Sprintf("buffer=%q cursor=%d motion=%q count=%s visual=%q", cs.buf, cs.pos, cs.motion, cs.count, cs.visual)
+	if cs.paren {
+		s += " blink-matching-paren=on"
+	}
+	return s
 }
 
 func c17Keys(cs c17Case, op string) []string {
@@ -71,6 +76,9 @@ func c17Keys(cs c17Case, op string) []string {
 }
 
 func c17Job(id int, cs c17Case, op string, rc string) harness.Job {
+	if cs.paren {
+		rc += "set blink-matching-paren on\n"
+	}
 	cfg := harness.Config{RC: rc, W: 80, H: 24, Prompt: "> ", NoHist: true}
 	cfg.Probes = []harness.Probe{{Name: "verif-seed-b", Kind: "seed", Arg: cs.buf, Pos: cs.pos}}
 	ans := Keys("\x1b", c16SeedB)
@@ -146,9 +154,10 @@ func init() {
 			Buf                   string
 			Pos                   int
 			Motion, Count, Visual string
+			Paren                 bool
 		}
 		jsonUnmarshal(w.Input, &in)
-		cs := c17Case{in.Buf, in.Pos, in.Motion, in.Count, in.Visual}
+		cs := c17Case{in.Buf, in.Pos, in.Motion, in.Count, in.Visual, in.Paren}
 		ty := c.Pool.RunOne(&w.Jobs[0])
 		td := c.Pool.RunOne(&w.Jobs[1])
 		fp, what, _ := c17Verdict(cs, ty, td)
@@ -166,8 +175,8 @@ func runC17(c *Ctx) {
 	}
 	bufs := c02Strings(c17Alphabet, L)
 	// a few longer structured buffers
-	bufs = append(bufs, "foo bar", "a.b c", "x (a b) y", "say \"hi there\" ok", "a 'b c' d", "ab\ncd\nef", "é中 a")
-	c.Rule = fmt.Sprintf("all buffers of length <= %d over %q (+7 structured buffers) x every cursor position x %d motions/text objects x 4 count forms in operator-pending mode, and v/V + %d motions; two executions (y..., d...) from the identical planted state compared. non-trivial = distinct cases where the operator copied or removed something", L, c17Alphabet, len(c17Motions), len(c17Visual))
+	bufs = append(bufs, "foo bar", "a.b c", "x (a b) y", "f(ab) x", "say \"hi there\" ok", "a 'b c' d", "ab\ncd\nef", "é中 a")
+	c.Rule = fmt.Sprintf("all buffers of length <= %d over %q (+7 structured buffers) x every cursor position x %d motions/text objects x 4 count forms in operator-pending mode, and v/V + %d motions; buffers with brackets again with blink-matching-paren on; two executions (y..., d...) from the identical planted state compared. non-trivial = distinct cases where the operator copied or removed something", L, c17Alphabet, len(c17Motions), len(c17Visual))
 	c.Bounds = map[string]any{"max_len": L, "alphabet": c17Alphabet, "motions": c17Motions, "visual_motions": c17Visual, "counts": []string{"none", "2 before operator", "2 after operator", "3 after operator"}}
 	c.Assumptions = []string{"line-wise registers (dd/yy, V, j/k) may differ by one trailing newline, as the code documents"}
 	rc, _ := c16RC("vi")
@@ -190,6 +199,16 @@ func runC17(c *Ctx) {
 			}
 			for _, m := range []string{"", "j", "k"} {
 				cases = append(cases, c17Case{buf: b, pos: pos, motion: m, visual: "V"})
+			}
+			if strings.ContainsAny(b, "()") {
+				// the same with bracket matching on: the partner of a bracket under the cursor is marked
+				// on the display while the operator runs
+				for _, m := range c17Motions {
+					cases = append(cases, c17Case{buf: b, pos: pos, motion: m, paren: true})
+				}
+				for _, m := range c17Visual {
+					cases = append(cases, c17Case{buf: b, pos: pos, motion: m, visual: "v", paren: true})
+				}
 			}
 		}
 	}
@@ -259,7 +278,7 @@ func runC17(c *Ctx) {
 		}
 		jy, jd := c17Job(0, cs, "y", rc), c17Job(1, cs, "d", rc)
 		c.Violate(Witness{Fingerprint: fp, What: what, Engine: "session", Jobs: []harness.Job{jy, jd},
-			Input: jsonRaw(map[string]any{"Buf": cs.buf, "Pos": cs.pos, "Motion": cs.motion, "Count": cs.count, "Visual": cs.visual})}, func() string {
+			Input: jsonRaw(map[string]any{"Buf": cs.buf, "Pos": cs.pos, "Motion": cs.motion, "Count": cs.count, "Visual": cs.visual, "Paren": cs.paren})}, func() string {
 			f, _, _ := c17Verdict(cs, c.Pool.RunOne(&jy), c.Pool.RunOne(&jd))
 			return f
 		})
